@@ -62,6 +62,9 @@ fn run<B: SimField, H: ElementHasher<BaseField = B> + Send + Sync + 'static>(
     if case.shape.exemptions > 1 {
         ctx.probe("exemptions_gt_1");
     }
+    if case.shape.assertions.len() >= 256 {
+        ctx.probe("assertions_256_or_more");
+    }
     if let Some(a) = case.shape.aux.as_ref().and_then(|a| a.asserts.first()) {
         let n = case.shape.len();
         ctx.probe("aux_sequence_assertion");
